@@ -954,6 +954,17 @@ def restable(order: list[Any], expect: list[dict[str, Any]], root: Any) -> tuple
 	return None
 
 
+def tree_of(node: Any) -> Any:
+	return getattr(node, '_Node__nodes', None)
+
+
+def _tok(node: Any) -> str:
+	try:
+		return node.tokens[:60]
+	except Exception:  # noqa: BLE001
+		return '?'
+
+
 def first_misaligned(order: list[Any], expect: list[dict[str, Any]], calls: list[tuple[Any, dict[str, Any]]], run_id: int | None = None) -> tuple[str, str] | None:
 	for i, (node, kw) in enumerate(calls):
 		if i >= len(order):
@@ -961,6 +972,17 @@ def first_misaligned(order: list[Any], expect: list[dict[str, Any]], calls: list
 		cls = type(node).__name__
 		if node is not order[i] and node != order[i]:
 			return (f'visit-order:{type(order[i]).__name__}', f'call #{i} is for {node!r}, the property walk expects {order[i]!r}')
+		# Node.__eq__ compares (module_path, full_path) only: a node of an earlier parse of the same module is "equal".
+		# The visited node must belong to the tree that is being processed (same query object) and carry its text.
+		if node is not order[i]:
+			foreign = tree_of(node) is not tree_of(order[i])
+			if not foreign:
+				try:
+					foreign = node.tokens != order[i].tokens
+				except Exception:  # noqa: BLE001 - synthetic nodes have no entries
+					foreign = False
+			if foreign:
+				return (f'visit-foreign-tree:{cls}', f'call #{i} is for a node of another (earlier) tree at the same path {node.full_path}: tokens {_tok(node)!r}, the tree being processed has {_tok(order[i])!r}')
 		exp = expect[i]
 		if set(kw.keys()) != set(exp.keys()):
 			return (f'event-keys:{cls}', f'{cls} received keys {sorted(kw)} for properties {sorted(exp)}')
@@ -1327,7 +1349,7 @@ def search_semantic(ctx: Ctx) -> SearchResult:
 	rng = ctx.sub_rng('semantic')
 	res = SearchResult('identity-valued runs whose handlers call Reflections.type_of(node) (module loaded through Modules.load): generic-class programs + real modules')
 	hist: Counter[str] = Counter()
-	sources: list[tuple[str, str]] = [(f'generic#{i}', generic_program(rng)) for i in range(ctx.scale(5, 60))]
+	sources: list[tuple[str, str]] = [(f'generic#{i}', generic_program(rng)) for i in range(ctx.scale(4, 60))]
 	curated = [os.path.join(common.REPO, f) for f in (
 		'tests/unit/rogw/tranp/semantics/fixtures/fixture_reflections.py', 'example/json.py', 'example/FW/string.py',
 		'rogw/tranp/compatible/libralies/classes.py', 'tests/unit/rogw/tranp/implements/transpiler/fixtures/fixture_evaluator.py')]
@@ -1674,6 +1696,158 @@ def search_prop_keys_history(ctx: Ctx) -> SearchResult:
 	return res
 
 
+# --- history: one Procedure survives an unload + re-parse of the module (Interactive, Modules.unload + re-request)
+
+
+class EditGen:
+	"""Pairs of programs with the same statement skeleton (hence the same paths): version 2 changes only token texts
+	(`tokens`) or also the number of elements of list-valued properties at paths that exist in both (`lengths`)."""
+
+	def __init__(self, rng: random.Random) -> None:
+		self.rng = rng
+
+	def atom(self, salt: int) -> str:
+		r = self.rng
+		return r.choice([str(r.randint(0, 9) + 10 * salt), f'n{r.randint(0, 3)}{salt}', f"'s{r.randint(0, 3)}{salt}'", f'[{r.randint(0, 9)}, {salt}]', '[]'])
+
+	def items(self, n: int, salt: int) -> list[str]:
+		return [self.atom(salt) for _ in range(n)]
+
+	def stmt(self, i: int, kind: int, n: int, salt: int) -> str:
+		it = self.items(max(n, 1), salt)
+		if kind == 0:
+			return f"v{i} = [{', '.join(it[:n])}]\n"
+		if kind == 1:
+			return f"v{i} = f{i}({', '.join(it[:n])})\n"
+		if kind == 2:
+			return f'v{i} = {{' + ', '.join(f'{j}: {x}' for j, x in enumerate(it[:n])) + '}\n'
+		if kind == 3:
+			params = ', '.join(f'p{j}: int' for j in range(n))
+			return f'def g{i}({params}) -> int:\n\treturn {it[0]}\n'
+		if kind == 4:
+			body = ''.join(f'\tw{j} = {x}\n' for j, x in enumerate(it[:max(n, 1)]))
+			return f'def h{i}() -> None:\n{body}'
+		if kind == 5:
+			body = ''.join(f'\tdef m{j}(self) -> int:\n\t\treturn {x}\n' for j, x in enumerate(it[:max(n, 1)]))
+			return f'class C{i}:\n{body}'
+		if kind == 6:
+			return f"v{i} = {' + '.join(it[:max(n, 2)])}\n"
+		if kind == 7:
+			body = ''.join(f'\tu{j} = {x}\n' for j, x in enumerate(it[:max(n, 1)]))
+			return f'if {it[0]}:\n{body}else:\n\tpass\n'
+		return f"v{i} = ({', '.join(it[:max(n, 2)])})\n"
+
+	def pair(self) -> tuple[str, str, str]:
+		r = self.rng
+		kinds = [r.randrange(9) for _ in range(r.randint(1, 5))]
+		ns = [r.randint(0, 4) for _ in kinds]
+		mode = r.choice(['tokens', 'lengths', 'lengths'])
+		ns2 = list(ns) if mode == 'tokens' else [max(0, n + r.choice([-2, -1, 1, 2])) if r.random() < 0.7 else n for n in ns]
+		if mode == 'lengths' and ns2 == ns:
+			ns2[0] = ns[0] + 1
+		state = r.getstate()
+		src1 = ''.join(self.stmt(i, k, n, 1) for i, (k, n) in enumerate(zip(kinds, ns)))
+		r.setstate(state)  # the same random choices: only the salt (token texts) and the lengths differ
+		src2 = ''.join(self.stmt(i, k, n, 2) for i, (k, n) in enumerate(zip(kinds, ns2)))
+		return src1, src2, mode
+
+
+def bump_numbers(src: str) -> str | None:
+	"""Version 2 of a real module: every integer literal + 1 (same tree shape, same paths, different token texts)."""
+	import io
+	import tokenize
+	try:
+		toks = list(tokenize.generate_tokens(io.StringIO(src).readline))
+	except Exception:  # noqa: BLE001
+		return None
+	lines = src.splitlines(keepends=True)
+	for t in reversed(toks):
+		if t.type == tokenize.NUMBER and t.string.isdigit() and t.start[0] == t.end[0]:
+			ln = lines[t.start[0] - 1]
+			lines[t.start[0] - 1] = ln[:t.start[1]] + str(int(t.string) + 1) + ln[t.end[1]:]
+	out = ''.join(lines)
+	return out if out != src else None
+
+
+def search_reparse(ctx: Ctx) -> SearchResult:
+	"""One Procedure across unload + re-parse of the same module: nodes of the new tree are == (same module path and full
+	path) to nodes of the old one, so anything a Procedure remembers per node or per (node, key) goes stale. The law is
+	checked on the new tree by node identity / token text, through Entrypoints.unload/load and through Modules.unload/load."""
+	rng = ctx.sub_rng('reparse')
+	res = SearchResult('history: ONE Procedure, exec on tree 1 of a module, module unloaded and re-parsed from an edited source (same paths; other texts / other list lengths), exec again (Entrypoints and Modules wiring)')
+	hist: Counter[str] = Counter()
+	gen = EditGen(rng)
+	seen: set[str] = set()
+	cases: list[tuple[str, list[str], str]] = []
+	for i in range(ctx.scale(45, 900)):
+		a, b, mode = gen.pair()
+		cases.append((f'edit#{i}', [a, b, a] if i % 3 else [a, b], mode))
+	for f in real_files(ctx, rng)[:ctx.scale(3, 25)]:
+		if not is_curated(f):
+			continue
+		with open(f, encoding='utf-8') as fh:
+			src = fh.read()
+		b = bump_numbers(src)
+		if b:
+			cases.append((os.path.relpath(f, common.REPO), [src, b], 'tokens'))
+	for wiring in ('entrypoints', 'modules'):
+		app = common.MemApp(ctx.tmpdir())
+		load = (lambda s: app.entrypoint(s)) if wiring == 'entrypoints' else (lambda s: app.module(s).entrypoint)
+		run = IdentityRun()
+		since_reset: list[dict[str, Any]] = []  # every step this Procedure object has seen (the histories share it)
+		for name, versions, mode in cases:
+			if wiring == 'modules' and not name.startswith('edit#') and not ctx.thorough:
+				continue
+			paths: list[str] = []
+			for v, src in enumerate(versions):
+				try:
+					ep = load(src)
+				except Exception as e:  # noqa: BLE001 - outside the grammar
+					hist[f'parse raised {canon_exc(e)}'] += 1
+					break
+				bad = None
+				root = ep
+				try:
+					order, _ = spec_walk(ep)
+					if v == 0:
+						inner = [n for n in order if n.can_expand and declared_props(type(n)) and n is not ep]
+						paths = [n.full_path for n in rng.sample(inner, min(len(inner), 3))]
+					nodes_q = tree_of(ep)
+					roots = [nodes_q.by(p) for p in paths if nodes_q.exists(p)]
+					roots = [r for r in roots if r.can_expand] + [ep]
+					if v % 2:
+						roots.reverse()
+					for j, root in enumerate(roots):
+						res.cases += 1
+						hist[f'{wiring}: version {v + 1} ({mode if v else "first parse"})'] += 1
+						since_reset.append({'module': name, 'version': v + 1, 'parse': j == 0, 'root': root.full_path,
+							'source': src if name.startswith('edit#') else None})
+						bad = run.check(root)
+						if bad:
+							break
+				except Exception as e:  # noqa: BLE001
+					bad = (f'real-code-raises:{canon_exc(e)}', f'{canon_exc(e)} escaped from the real code: {tb_tail(e)}')
+				if bad:
+					key, what = bad
+					res.findings.append(Finding(key=f'{key}@after-reparse' if v else key,
+						what=f'{what} [{name}, {wiring} wiring, version {v + 1} of the module after exec on version(s) before it with the same Procedure; edit kind: {mode}]',
+						replay={'mode': 'reparse', 'wiring': wiring, 'edit': mode, 'versions': versions if name.startswith('edit#') else None, 'source_name': name,
+							'history': since_reset[-40:], 'note': 'history = the last steps of this Procedure object, oldest first; parse=true: the module was unloaded and (re-)parsed from `source` before this exec'}))
+					run = IdentityRun()
+					since_reset = []
+					hist['histories violating'] += 1
+					break
+			else:
+				hist['histories ok'] += 1
+			seen.add(f'{wiring}:{name}')
+			if len(res.samples) < 2 and name.startswith('edit#'):
+				res.samples.append({'history': name, 'wiring': wiring, 'edit': mode, 'versions': versions})
+	res.distinct = len(seen)
+	res.histogram = dict(hist)
+	res.note = 'the Procedure object is shared by all histories of a wiring (reset after a finding); visited nodes must be the objects of the tree being processed (query object identity and token text), not merely equal by path'
+	return res
+
+
 def search_nested_catch(ctx: Ctx) -> SearchResult:
 	"""The hazard of failed_nested_counterexample needs a caller that catches the exception of a nested exec on the same
 	Procedure. Static scan of tranp for `try` bodies that (lexically) start such a run; replay of the witness on the real code."""
@@ -1787,7 +1961,9 @@ def run(ctx: Ctx) -> int:
 			s1 = guarded_search('identity', lambda: search_identity(ctx, real_descs, gen_descs))
 		with ctx.timed('search_semantic'):
 			s2 = guarded_search('semantic', lambda: search_semantic(ctx))
-		searches = [s1, s2, s3, guarded_search('nested-catch', lambda: search_nested_catch(ctx))]
+		with ctx.timed('search_reparse'):
+			s4 = guarded_search('reparse', lambda: search_reparse(ctx))
+		searches = [s1, s2, s3, s4, guarded_search('nested-catch', lambda: search_nested_catch(ctx))]
 	return common.finish(ctx, proof, streams, searches,
 		statements=STATEMENTS,
 		partial={
@@ -1811,9 +1987,21 @@ def replay(ctx: Ctx, path: str) -> int:
 		rec = json.load(f)
 	print(json.dumps(rec, indent=1)[:4000])
 	inp = rec.get('input') or {}
-	if rec.get('kind') == 'failing-input' and inp.get('source'):
+	if rec.get('kind') == 'failing-input' and (inp.get('source') or inp.get('versions')):
 		app = common.MemApp(ctx.tmpdir())
-		if inp.get('mode') == 'prop-keys-history':
+		if inp.get('mode') == 'reparse' and inp.get('versions'):
+			load = (lambda x: app.entrypoint(x)) if inp.get('wiring') == 'entrypoints' else (lambda x: app.module(x).entrypoint)
+			run_ = IdentityRun()
+			ep = None
+			for h in inp['history']:
+				if h.get('source') is None:
+					print('replay: step on a real module skipped (source not recorded):', h['module'])
+					continue
+				if h['parse'] or ep is None:
+					ep = load(h['source'])
+				q = tree_of(ep)
+				print('replay:', h['module'], 'version', h['version'], 'root', h['root'], '->', run_.check(q.by(h['root'])))
+		elif inp.get('mode') == 'prop-keys-history':
 			out = run_worker({'mode': inp['order_mode'], 'seed': inp['order_seed'], 'sources': [[inp['source_name'], inp['source']]], 'must_hold': {inp['source_name']: True}})
 			print('replay: fresh process, prop_keys() queried in the recorded order, then the identity oracle ->', json.dumps(out['findings'], default=str)[:1500])
 		elif inp.get('mode') == 'semantic':
